@@ -119,19 +119,36 @@ def _texts(tier, **fixed):
         yield (sep.join(rnd.choice(parts) for _ in range(k)),)
     for t in ("i", "i-", "i_", "i- ", "i-a", "I_a b", "ia", "i--", "i-\t", "i" + "x" * 50):
         yield (t,)
+    # digit strings longer than int() converts by default (4300), alone and in every level position
+    for n in (4300, 4301, 10000):
+        d = "1" * n
+        for t in (d, "0" * n, "0" * n + "1", d + "/1/1", "1/" + d + "/1", "1/1/" + d, d + ".1.1", "1." + d + ".1", "1.1." + d, d + "/1", "1/" + d):
+            yield (t,)
+    # objects that are no text: accepted ones (ints - bool is an int) must render in every notation to text
+    # that parses back; everything else is refused with the parse error
+    for obj in (True, False, 0, 1, 65535, 65536, -1, None, 1.0, 1.5, b"1", b"1/1/1", [1], (1, 1, 1), {"a": 1}, object(), float("nan")):
+        yield (obj,)
     # characters for which str.isdigit() is true but int() fails, and digits of other scripts
     for ch in "\u00b2\u00b3\u00b9\u2070\u2074\u2080\u2460\u2474\u2488\u24ea\u0661\u0967\uff11\u1369\u3007\u4e00":
         for t in (ch, ch + ch, "1" + ch, ch + "/1/1", "1/" + ch + "/1", "1/1/" + ch, "1." + ch + ".1", ch + ".1.1", "1.1." + ch, "i" + ch):
             yield (t,)
 
 
-@standin("C01", cases=_texts, kind="enum-native", exhaustive=False, bound="all texts up to 4 (quick) / 5 (thorough) characters over a 13..17 character alphabet (digits / . - _ space i * x + newline), plus 2*10^4 / 2*10^5 seeded structured near-misses (level values around every limit, leading zeros, signs, blanks) and 16 non-ASCII digit-like characters in every level position")
+@standin("C01", cases=_texts, kind="enum-native", exhaustive=False, bound="all texts up to 4 (quick) / 5 (thorough) characters over a 13..17 character alphabet (digits / . - _ space i * x + newline), plus 2*10^4 / 2*10^5 seeded structured near-misses (level values around every limit, leading zeros, signs, blanks) and 16 non-ASCII digit-like characters in every level position, digit strings of 4300 / 4301 / 10000 characters in every level position, and 17 objects that are no text (bool, None, floats, bytes, containers); accepted group addresses are rendered and re-parsed in all three notations")
 def any_text_parses_canonically_or_is_refused(text):
     for cls in (IndividualAddress, GroupAddress, InternalGroupAddress):
         try:
             a = cls(text)
         except CouldNotParseAddress:
             continue
+        if cls is GroupAddress:
+            saved = GroupAddress.address_format
+            try:
+                for fmt in GroupAddressType:  # the notation is a class attribute: every rendering must parse back
+                    GroupAddress.address_format = fmt
+                    assert cls(str(a)) == a and str(cls(str(a))) == str(a), (cls.__name__, text, fmt, str(a))
+            finally:
+                GroupAddress.address_format = saved
         b = cls(str(a))
         assert b == a and str(b) == str(a), (cls.__name__, text, str(a))
     try:
